@@ -104,10 +104,10 @@ type kase struct {
 	Drops   int             `json:"drops"`
 	Dups    int             `json:"dups"`
 	Seed    int64           `json:"seed"`
-	Solo    int             `json:"solo"`     // writer for the solo phase (0 = none, -1 = seeded choice)
+	Solo    int             `json:"solo"` // writer for the solo phase (0 = none, -1 = seeded choice)
 	SoloTry int             `json:"solotries"`
-	VAbort  float64         `json:"vabort"`   // probability weight of voluntary aborts in free mode
-	Lag     int             `json:"lag"`      // free mode: requests to this replica are delivered late (it falls behind)
+	VAbort  float64         `json:"vabort"` // probability weight of voluntary aborts in free mode
+	Lag     int             `json:"lag"`    // free mode: requests to and from this replica are delivered late (it falls behind)
 }
 
 // a broadcast goroutine of the library that got an error for an Abort/Commit request sleeps one second
@@ -397,7 +397,46 @@ func freeAddr() (string, error) {
 	return a, nil
 }
 
-func newWorld(k *kase, wd time.Duration) (*world, error) {
+// NewTwoPC listens on the address it is given and ignores a failure to do so. The port comes from freeAddr (bound
+// to :0, released, bound again by NewTwoPC): in between another process of this shared machine - e.g. a second
+// c11drv - can take it. Then our replica does not listen at all and an RPC handle for that address talks to a
+// foreign replica (seen once: an idle replica "refused" the first PreCommit of a case). The receiver's listener is
+// nil in that case: the world is thrown away and built again on fresh ports.
+func listens(rcv *resources.TwoPCReceiver) (ok bool) {
+	defer func() {
+		if recover() != nil {
+			ok = true // the field changed shape: no check
+		}
+	}()
+	f := reflect.ValueOf(rcv).Elem().FieldByName("listener")
+	if !f.IsValid() {
+		return true
+	}
+	return !f.IsNil()
+}
+
+func newWorld(k *kase, wd time.Duration) (w *world, err error) {
+	for attempt := 0; attempt < 8; attempt++ {
+		w, err = newWorldOnce(k, wd)
+		if err != nil {
+			continue
+		}
+		stolen := 0
+		for _, n := range w.nodes {
+			if !listens(n.rcv) {
+				stolen = n.id
+			}
+		}
+		if stolen == 0 {
+			return w, nil
+		}
+		w.teardown()
+		err = fmt.Errorf("replica %d could not listen on its port (taken by another process) in 8 attempts", stolen)
+	}
+	return nil, err
+}
+
+func newWorldOnce(k *kase, wd time.Duration) (*world, error) {
 	w := &world{k: k, nodes: map[int]*node{}, reflOK: true, rng: rand.New(rand.NewSource(k.Seed)), wd: wd,
 		obsID: tla.MakeString("verif-observer")}
 	for i := 1; i <= k.N; i++ {
